@@ -192,7 +192,9 @@ func value(r *core.Rand, o Opts, b *strings.Builder, depth int) {
 
 var structural = []byte(`{}[],:"\ 0123456789-+.eEtfn` + "\n\t\x00\x1f\x7f\x80\xff/u")
 
-// Mutate applies 1-3 random byte-level mutations.
+var otherTokens = []string{"null", "true", "false", "0", "-1", "1.5", "[]", "{}", `""`, `"k"`, "nul", `"\u0041"`}
+
+// Mutate applies 1-3 random byte-level or token-level mutations.
 func Mutate(r *core.Rand, doc string) string {
 	b := []byte(doc)
 	n := 1 + r.Intn(3)
@@ -202,7 +204,32 @@ func Mutate(r *core.Rand, doc string) string {
 			continue
 		}
 		p := r.Intn(len(b))
-		switch r.Intn(7) {
+		switch r.Intn(9) {
+		case 7, 8: // a whole string token (key or value) becomes a token of another kind, or the reverse
+			var spans [][2]int
+			for i := 0; i < len(b); i++ {
+				if b[i] != '"' {
+					continue
+				}
+				j := i + 1
+				for j < len(b) && b[j] != '"' {
+					if b[j] == '\\' {
+						j++
+					}
+					j++
+				}
+				if j < len(b) {
+					spans = append(spans, [2]int{i, j + 1})
+				}
+				i = j
+			}
+			repl := otherTokens[r.Intn(len(otherTokens))]
+			if len(spans) == 0 {
+				b = append(b[:p], append([]byte(repl), b[p:]...)...)
+				continue
+			}
+			sp := spans[r.Intn(len(spans))]
+			b = append(b[:sp[0]], append([]byte(repl), b[sp[1]:]...)...)
 		case 0: // truncate
 			b = b[:p]
 		case 1: // delete
